@@ -20,6 +20,7 @@ mod c15;
 mod c16;
 mod c17;
 mod grms;
+mod known;
 mod c19;
 mod c20;
 
@@ -66,6 +67,7 @@ fn rerun(w: &Value) -> Option<Outcome> {
         "c10_render" => Some(c10r::run(w["input"]["seed"].as_u64()?, w["input"]["layout"].as_u64()? as usize, w["input"]["kind"].as_u64()? as u8)),
         "c20_u8_table" => Some(c20::run_u8_table(w["input"]["kind"].as_str()?, w["input"]["n"].as_u64()? as usize)),
         "c11_numflag" => Some(c11::run_numflag(w["input"]["key"].as_str()?, w["input"]["n"].as_u64()?)),
+        "known" => known::run(w["input"]["case"].as_str()?),
         "c09_anchor" => Some(c09::run_anchor(w["input"]["text"].as_str()?)),
         "c20_numbering" => Some(c20::run_numbering(w["input"]["grammar"].as_str()?)),
         "c20_u8" => Some(c20::run_u8(w["input"]["kind"].as_str()?, w["input"]["n"].as_u64()? as usize)),
